@@ -32,6 +32,10 @@
 #define NE_MIN NE /* number of edges is a choice in [NE_MIN, NE] */
 #endif
 #define SEQ_L (2 * NE + 1)
+#ifndef SITE_ANC
+#define SITE_ANC "A"
+#define SITE_ANC_LEN 1
+#endif
 
 /* time profiles: index by node id (samples first) */
 static const double h_time_profiles[6][MAXN] = {
@@ -141,7 +145,7 @@ h_build_treeseq(tsk_table_collection_t *t, tsk_treeseq_t *ts, h_tables_t *T)
         if (j > 0) {
             sym_assume(site_pos[j - 1] < site_pos[j]);
         }
-        ret = tsk_site_table_add_row(&t->sites, site_pos[j], "A", 1, NULL, 0);
+        ret = tsk_site_table_add_row(&t->sites, site_pos[j], SITE_ANC, SITE_ANC_LEN, NULL, 0);
         sym_assume(ret == j);
     }
 #ifdef H_EXTRA_ROWS
